@@ -9,6 +9,7 @@ import (
 	"io/ioutil"
 	"log"
 	"path/filepath"
+	"regexp"
 	"runtime"
 	"strings"
 	"sync/atomic"
@@ -36,6 +37,8 @@ type Case struct {
 	IllPct int    `json:"ill_pct,omitempty"`
 	// CrossArgs: cross-type fragment spreads may involve fields with arguments (known finding)
 	CrossArgs bool `json:"cross_args,omitempty"`
+	// OmitMarshalers: see gqlty.GenSchema.OmitMarshalers (known finding)
+	OmitMarshalers bool `json:"omit_marshalers,omitempty"`
 	// Edited: the pinned query is a textual edit of another one and need not be syntactically valid
 	Edited bool `json:"edited,omitempty"`
 }
@@ -78,6 +81,8 @@ func aliasClash(doc *ast.Document) bool {
 }
 
 type F = gqlty.Finding
+
+var thunderFrame = regexp.MustCompile(`github\.com/samsarahq/thunder/([A-Za-z0-9_/]+\.[A-Za-z0-9_.()*]+)\(`)
 
 func safe(f func()) (pan string) {
 	defer func() {
@@ -126,7 +131,7 @@ func runCase(c *Case) ([]F, map[string]interface{}) {
 	var fs []F
 	obs := map[string]interface{}{}
 	r := vh.NewRng(c.Seed)
-	g := gqlty.NewGenSchema(r.Fork())
+	g := gqlty.NewGenSchemaOpt(r.Fork(), c.OmitMarshalers)
 	schema, err := g.Build()
 	obs["shapes"] = g.Shapes
 	if err != nil {
@@ -384,7 +389,14 @@ func main() {
 		run.LogCase(idx, c)
 		res := results[idx]
 		for _, f := range res.Findings {
-			run.Fail(idx, f.Sig, f.Detail, c)
+			sig := f.Sig
+			if sig == "process-died" {
+				// name the thunder function on top of the crashing goroutine's stack
+				if m := thunderFrame.FindStringSubmatch(f.Detail); m != nil {
+					sig += ":" + m[1]
+				}
+			}
+			run.Fail(idx, sig, f.Detail, c)
 		}
 		ex, _ := res.Obs["executed"].(bool)
 		run.Count(fmt.Sprint(c.Seed, c.QSeed, c.Query), ex)
